@@ -129,7 +129,7 @@ Inductive op :=
 | Forget (live : list N).   (* the in-memory half of GC: digest references of content outside
                                [live] are dropped (tagged content always stays), then saveIndex *)
 
-Inductive res := ROk | RExists | RNotFound | RMismatch.
+Inductive res := ROk | RExists | RNotFound | RMismatch | RInvalid.
 
 Definition memN (x : N) (l : list N) : bool := existsb (N.eqb x) l.
 
@@ -331,6 +331,83 @@ Definition run_hop (s : st) (x : hop) : st :=
   end.
 
 Definition runc (h : list hop) (s : st) : st := fold_left run_hop h s.
+
+(* ---------- the API of the Store: one call = a list of primitives ---------- *)
+(* [mt d]: the descriptor of blob d carries a manifest media type; [dec d]: its bytes decode as
+   a manifest (graph.Index / loadIndex succeed on it).  A manifest-typed blob that does not
+   decode is stored by Storage.Push, fails graph.Index and is removed again (Store.Push);
+   Store.Tag indexes a manifest-typed blob first and refuses it when that fails. *)
+Variable mt : N -> bool.
+Variable dec : N -> bool.
+
+Inductive api :=
+| APush (d : N) (c : list N)
+| ATag (d r : N)
+| AUntag (r : N)
+| ADelete (d : N) (cascade : list N)   (* AutoGC: the nodes deleted after d, in queue order *)
+| ASaveIndex
+| AGC (live sweep : list N)            (* live set of the mark phase; blobs swept, in directory order *)
+| AReopen.                             (* oci.New on the existing layout: reads only *)
+
+Definition expand (s : st) (a : api) : list op :=
+  match a with
+  | APush d c =>
+      if mt d then
+        if dec d then [Push d c true]
+        else if exists_file (sfs s) (FBlob d) then [Push d c false]      (* AlreadyExists *)
+        else if H c =? d then [Push d c false; Delete d]                 (* stored, unindexable, removed *)
+        else [Push d c false]                                            (* verification fails first *)
+      else [Push d c false]
+  | ATag d r =>
+      if exists_file (sfs s) (FBlob d) && mt d && negb (dec d) then [] else [Tag d r]
+  | AUntag r => [Untag r]
+  | ADelete d cascade => Delete d :: map Delete cascade
+  | ASaveIndex => [SaveIndex]
+  | AGC live sweep => Forget live :: map Delete sweep
+  | AReopen => []
+  end.
+
+Definition api_res (s : st) (a : api) : res :=
+  match a with
+  | APush d c =>
+      match op_res s (Push d c false) with
+      | ROk => if mt d && negb (dec d) then RInvalid else ROk
+      | r => r
+      end
+  | ATag d r =>
+      if exists_file (sfs s) (FBlob d) then (if mt d && negb (dec d) then RInvalid else ROk) else RNotFound
+  | AUntag r => op_res s (Untag r)
+  | ADelete d _ => op_res s (Delete d)
+  | ASaveIndex | AGC _ _ | AReopen => ROk
+  end.
+
+(* a call interrupted after k micro-steps of its concatenated step list, then oci.New:
+   the cut falls into one primitive (Proofs: seq_cut); the earlier ones completed *)
+Fixpoint crash_ops (s : st) (os : list op) (k : nat) : st :=
+  match os with
+  | [] => reopen (sfs s) (S (sctr s))
+  | o :: r =>
+      let n := length (op_steps s o) in
+      if Nat.leb k n then run_hop s (Crashed o k) else crash_ops (run_op s o) r (k - n)
+  end.
+
+Inductive acall := ADone (a : api) | ACrashed (a : api) (k : nat).
+
+Definition run_acall (s : st) (x : acall) : st :=
+  match x with
+  | ADone a => run (expand s a) s
+  | ACrashed a k => crash_ops s (expand s a) k
+  end.
+
+Definition runa (h : list acall) (s : st) : st := fold_left run_acall h s.
+
+(* loadIndex succeeds on this directory: index.json parses, every entry names a blob file, and
+   every manifest-typed entry decodes *)
+Definition load_okb (fs : FS) : bool :=
+  match read_index fs with
+  | Some l => forallb (fun e => exists_file fs (FBlob (fst e)) && (negb (mt (fst e)) || dec (fst e))) l
+  | None => false
+  end.
 
 Fixpoint chunks_of (l : list atom) : option (list N) :=
   match l with
